@@ -152,28 +152,62 @@ theorem pe_compose (T : Trig R) (r r' : V3 R) (ε : R) (hε : ε = 1 ∨ ε = -1
       fin_cases i <;> fin_cases j <;>
       simp [toM4, Gen.M4.rotateE, Gen.M4.mul, Gen.M4.mulEntry, hx1, hx2, hy1, hy2, hz1, hz2] <;> ring
 
-/-! ### exactly on the gimbal lock -/
+/-! ### after removing the last rotation (`m = M · R[a2](-r0)`), and exactly on the gimbal lock -/
 
 set_option maxHeartbeats 8000000 in
-/-- Tait–Bryan, `cos β = 0`: the entries read by the locked branch form a point of the unit circle -/
-theorem tb_lock_entries (T : Trig R) (hu : ∀ x, T.cos x * T.cos x + T.sin x * T.sin x = 1) (r : V3 R) (σ : R) (hσ : σ = 1 ∨ σ = -1)
-    (hs : T.sin r.y = σ) (hc : T.cos r.y = 0)
+/-- Tait–Bryan: after removing the last rotation (`ψ = -r0`, `(sin r0, cos r0) = ε (sin γ, cos γ)`) the elements read for the
+first angle are `ε (sin α, cos α)` -/
+theorem tb_strip (T : Trig R) (hu : ∀ x, T.cos x * T.cos x + T.sin x * T.sin x = 1) (r : V3 R) (ψ ε : R) (hε : ε = 1 ∨ ε = -1)
+    (hs : T.sin ψ = -(ε * T.sin r.z)) (hc : T.cos ψ = ε * T.cos r.z)
     (a0 a1 a2 : Nat) (h0 : a0 < 3) (h1 : a1 < 3) (h2 : a2 < 3) (h01 : a0 ≠ a1) (h12 : a1 ≠ a2) (h02 : a0 ≠ a2) :
-    Gen.M4.rotateE (fld R) T r a0 a1 a2 a1 a0 * Gen.M4.rotateE (fld R) T r a0 a1 a2 a1 a0 +
-      Gen.M4.rotateE (fld R) T r a0 a1 a2 a1 a1 * Gen.M4.rotateE (fld R) T r a0 a1 a2 a1 a1 = 1 := by
+    (-(tbSign a0 a1 : R)) * Gen.M4.mul (fld R) (Gen.M4.rotateE (fld R) T r a0 a1 a2) (Gen.M4.rotateAxis (fld R) T a2 ψ) a2 a1 = ε * T.sin r.x ∧
+    Gen.M4.mul (fld R) (Gen.M4.rotateE (fld R) T r a0 a1 a2) (Gen.M4.rotateAxis (fld R) T a2 ψ) a1 a1 = ε * T.cos r.x := by
+  have huz := hu r.z
+  rcases hε with rfl | rfl <;>
+  interval_cases a0 <;> interval_cases a1 <;> interval_cases a2 <;> simp at h01 h12 h02 <;>
+    simp [tbSign, Gen.M4.rotateE, Gen.M4.mul, Gen.M4.mulEntry, hs, hc] <;>
+    (constructor <;> first
+      | linear_combination (T.sin r.x) * huz | linear_combination (-T.sin r.x) * huz
+      | linear_combination (T.cos r.x) * huz | linear_combination (-T.cos r.x) * huz)
+
+set_option maxHeartbeats 8000000 in
+/-- proper Euler orders: the same after removing the last rotation about `a0` -/
+theorem pe_strip (T : Trig R) (hu : ∀ x, T.cos x * T.cos x + T.sin x * T.sin x = 1) (r : V3 R) (ψ ε : R) (hε : ε = 1 ∨ ε = -1)
+    (hs : T.sin ψ = -(ε * T.sin r.z)) (hc : T.cos ψ = ε * T.cos r.z)
+    (a0 a1 : Nat) (h0 : a0 < 3) (h1 : a1 < 3) (h01 : a0 ≠ a1) :
+    (peSign a0 a1 : R) * Gen.M4.mul (fld R) (Gen.M4.rotateE (fld R) T r a0 a1 a0) (Gen.M4.rotateAxis (fld R) T a0 ψ) (3 - a0 - a1) a1 = ε * T.sin r.x ∧
+    Gen.M4.mul (fld R) (Gen.M4.rotateE (fld R) T r a0 a1 a0) (Gen.M4.rotateAxis (fld R) T a0 ψ) a1 a1 = ε * T.cos r.x := by
+  have huz := hu r.z
+  rcases hε with rfl | rfl <;>
+  interval_cases a0 <;> interval_cases a1 <;> simp at h01 <;>
+    simp [peSign, Gen.M4.rotateE, Gen.M4.mul, Gen.M4.mulEntry, hs, hc] <;>
+    (constructor <;> first
+      | linear_combination (T.sin r.x) * huz | linear_combination (-T.sin r.x) * huz
+      | linear_combination (T.cos r.x) * huz | linear_combination (-T.cos r.x) * huz)
+
+set_option maxHeartbeats 8000000 in
+/-- Tait–Bryan exactly on the lock, nothing removed (`ψ` with `sin ψ = 0`, `cos ψ = 1`): the two elements read for the first
+angle form a point of the unit circle -/
+theorem tb_lock2_entries (T : Trig R) (hu : ∀ x, T.cos x * T.cos x + T.sin x * T.sin x = 1) (r : V3 R) (σ ψ : R) (hσ : σ = 1 ∨ σ = -1)
+    (hs : T.sin r.y = σ) (hc : T.cos r.y = 0) (hs0 : T.sin ψ = 0) (hc0 : T.cos ψ = 1)
+    (a0 a1 a2 : Nat) (h0 : a0 < 3) (h1 : a1 < 3) (h2 : a2 < 3) (h01 : a0 ≠ a1) (h12 : a1 ≠ a2) (h02 : a0 ≠ a2) :
+    Gen.M4.mul (fld R) (Gen.M4.rotateE (fld R) T r a0 a1 a2) (Gen.M4.rotateAxis (fld R) T a2 ψ) a1 a1 *
+      Gen.M4.mul (fld R) (Gen.M4.rotateE (fld R) T r a0 a1 a2) (Gen.M4.rotateAxis (fld R) T a2 ψ) a1 a1 +
+    Gen.M4.mul (fld R) (Gen.M4.rotateE (fld R) T r a0 a1 a2) (Gen.M4.rotateAxis (fld R) T a2 ψ) a2 a1 *
+      Gen.M4.mul (fld R) (Gen.M4.rotateE (fld R) T r a0 a1 a2) (Gen.M4.rotateAxis (fld R) T a2 ψ) a2 a1 = 1 := by
   have hua := hu r.x
   have hug := hu r.z
   rcases hσ with rfl | rfl <;>
   interval_cases a0 <;> interval_cases a1 <;> interval_cases a2 <;> simp at h01 h12 h02 <;>
-    simp [Gen.M4.rotateE, Gen.M4.mul, Gen.M4.mulEntry, hs, hc] <;>
+    simp [Gen.M4.rotateE, Gen.M4.mul, Gen.M4.mulEntry, hs, hc, hs0, hc0] <;>
     linear_combination (T.cos r.z * T.cos r.z + T.sin r.z * T.sin r.z) * hua + hug
 
 set_option maxHeartbeats 8000000 in
-theorem tb_lock_compose (T : Trig R) (r r' : V3 R) (σ : R) (hσ : σ = 1 ∨ σ = -1)
-    (hs : T.sin r.y = σ) (hc : T.cos r.y = 0)
+theorem tb_lock2_compose (T : Trig R) (r r' : V3 R) (σ ψ : R) (hσ : σ = 1 ∨ σ = -1)
+    (hs : T.sin r.y = σ) (hc : T.cos r.y = 0) (hs0 : T.sin ψ = 0) (hc0 : T.cos ψ = 1)
     (a0 a1 a2 : Nat) (h0 : a0 < 3) (h1 : a1 < 3) (h2 : a2 < 3) (h01 : a0 ≠ a1) (h12 : a1 ≠ a2) (h02 : a0 ≠ a2)
-    (hx : T.sin r'.x = σ * (-(tbSign a0 a1 : R)) * (-(tbSign a0 a1 : R) * Gen.M4.rotateE (fld R) T r a0 a1 a2 a1 a0) ∧
-          T.cos r'.x = Gen.M4.rotateE (fld R) T r a0 a1 a2 a1 a1)
+    (hx : T.sin r'.x = -(tbSign a0 a1 : R) * Gen.M4.mul (fld R) (Gen.M4.rotateE (fld R) T r a0 a1 a2) (Gen.M4.rotateAxis (fld R) T a2 ψ) a2 a1 ∧
+          T.cos r'.x = Gen.M4.mul (fld R) (Gen.M4.rotateE (fld R) T r a0 a1 a2) (Gen.M4.rotateAxis (fld R) T a2 ψ) a1 a1)
     (hy : T.sin r'.y = σ ∧ T.cos r'.y = 0)
     (hz : T.sin r'.z = 0 ∧ T.cos r'.z = 1) :
     toM4 (Gen.M4.rotateE (fld R) T r' a0 a1 a2) = toM4 (Gen.M4.rotateE (fld R) T r a0 a1 a2) := by
@@ -183,27 +217,31 @@ theorem tb_lock_compose (T : Trig R) (r r' : V3 R) (σ : R) (hσ : σ = 1 ∨ σ
   ext i j
   rcases hσ with rfl | rfl <;>
   interval_cases a0 <;> interval_cases a1 <;> interval_cases a2 <;> simp at h01 h12 h02 <;>
-    simp [tbSign, Gen.M4.rotateE, Gen.M4.mul, Gen.M4.mulEntry, hs, hc] at hx1 hx2 <;>
+    simp [tbSign, Gen.M4.rotateE, Gen.M4.mul, Gen.M4.mulEntry, hs, hc, hs0, hc0] at hx1 hx2 <;>
     fin_cases i <;> fin_cases j <;>
     simp [toM4, Gen.M4.rotateE, Gen.M4.mul, Gen.M4.mulEntry, hx1, hx2, hy1, hy2, hz1, hz2, hs, hc] <;> ring
 
 set_option maxHeartbeats 8000000 in
-theorem pe_lock_entries (T : Trig R) (hu : ∀ x, T.cos x * T.cos x + T.sin x * T.sin x = 1) (r : V3 R) (σ : R) (hσ : σ = 1 ∨ σ = -1)
-    (hs : T.sin r.y = 0) (hc : T.cos r.y = σ) (a0 a1 : Nat) (h0 : a0 < 3) (h1 : a1 < 3) (h01 : a0 ≠ a1) :
-    Gen.M4.rotateE (fld R) T r a0 a1 a0 a1 (3 - a0 - a1) * Gen.M4.rotateE (fld R) T r a0 a1 a0 a1 (3 - a0 - a1) +
-      Gen.M4.rotateE (fld R) T r a0 a1 a0 a1 a1 * Gen.M4.rotateE (fld R) T r a0 a1 a0 a1 a1 = 1 := by
+theorem pe_lock2_entries (T : Trig R) (hu : ∀ x, T.cos x * T.cos x + T.sin x * T.sin x = 1) (r : V3 R) (σ ψ : R) (hσ : σ = 1 ∨ σ = -1)
+    (hs : T.sin r.y = 0) (hc : T.cos r.y = σ) (hs0 : T.sin ψ = 0) (hc0 : T.cos ψ = 1)
+    (a0 a1 : Nat) (h0 : a0 < 3) (h1 : a1 < 3) (h01 : a0 ≠ a1) :
+    Gen.M4.mul (fld R) (Gen.M4.rotateE (fld R) T r a0 a1 a0) (Gen.M4.rotateAxis (fld R) T a0 ψ) a1 a1 *
+      Gen.M4.mul (fld R) (Gen.M4.rotateE (fld R) T r a0 a1 a0) (Gen.M4.rotateAxis (fld R) T a0 ψ) a1 a1 +
+    Gen.M4.mul (fld R) (Gen.M4.rotateE (fld R) T r a0 a1 a0) (Gen.M4.rotateAxis (fld R) T a0 ψ) (3 - a0 - a1) a1 *
+      Gen.M4.mul (fld R) (Gen.M4.rotateE (fld R) T r a0 a1 a0) (Gen.M4.rotateAxis (fld R) T a0 ψ) (3 - a0 - a1) a1 = 1 := by
   have hua := hu r.x
   have hug := hu r.z
   rcases hσ with rfl | rfl <;>
   interval_cases a0 <;> interval_cases a1 <;> simp at h01 <;>
-    simp [Gen.M4.rotateE, Gen.M4.mul, Gen.M4.mulEntry, hs, hc] <;>
+    simp [Gen.M4.rotateE, Gen.M4.mul, Gen.M4.mulEntry, hs, hc, hs0, hc0] <;>
     linear_combination (T.cos r.z * T.cos r.z + T.sin r.z * T.sin r.z) * hua + hug
 
 set_option maxHeartbeats 8000000 in
-theorem pe_lock_compose (T : Trig R) (r r' : V3 R) (σ : R) (hσ : σ = 1 ∨ σ = -1)
-    (hs : T.sin r.y = 0) (hc : T.cos r.y = σ) (a0 a1 : Nat) (h0 : a0 < 3) (h1 : a1 < 3) (h01 : a0 ≠ a1)
-    (hx : T.sin r'.x = σ * (-(peSign a0 a1 : R) * Gen.M4.rotateE (fld R) T r a0 a1 a0 a1 (3 - a0 - a1)) ∧
-          T.cos r'.x = Gen.M4.rotateE (fld R) T r a0 a1 a0 a1 a1)
+theorem pe_lock2_compose (T : Trig R) (r r' : V3 R) (σ ψ : R) (hσ : σ = 1 ∨ σ = -1)
+    (hs : T.sin r.y = 0) (hc : T.cos r.y = σ) (hs0 : T.sin ψ = 0) (hc0 : T.cos ψ = 1)
+    (a0 a1 : Nat) (h0 : a0 < 3) (h1 : a1 < 3) (h01 : a0 ≠ a1)
+    (hx : T.sin r'.x = (peSign a0 a1 : R) * Gen.M4.mul (fld R) (Gen.M4.rotateE (fld R) T r a0 a1 a0) (Gen.M4.rotateAxis (fld R) T a0 ψ) (3 - a0 - a1) a1 ∧
+          T.cos r'.x = Gen.M4.mul (fld R) (Gen.M4.rotateE (fld R) T r a0 a1 a0) (Gen.M4.rotateAxis (fld R) T a0 ψ) a1 a1)
     (hy : T.sin r'.y = 0 ∧ T.cos r'.y = σ)
     (hz : T.sin r'.z = 0 ∧ T.cos r'.z = 1) :
     toM4 (Gen.M4.rotateE (fld R) T r' a0 a1 a0) = toM4 (Gen.M4.rotateE (fld R) T r a0 a1 a0) := by
@@ -213,10 +251,9 @@ theorem pe_lock_compose (T : Trig R) (r r' : V3 R) (σ : R) (hσ : σ = 1 ∨ σ
   ext i j
   rcases hσ with rfl | rfl <;>
   interval_cases a0 <;> interval_cases a1 <;> simp at h01 <;>
-    simp [peSign, Gen.M4.rotateE, Gen.M4.mul, Gen.M4.mulEntry, hs, hc] at hx1 hx2 <;>
+    simp [peSign, Gen.M4.rotateE, Gen.M4.mul, Gen.M4.mulEntry, hs, hc, hs0, hc0] at hx1 hx2 <;>
     fin_cases i <;> fin_cases j <;>
     simp [toM4, Gen.M4.rotateE, Gen.M4.mul, Gen.M4.mulEntry, hx1, hx2, hy1, hy2, hz1, hz2, hs, hc] <;> ring
-
 
 end euler
 
